@@ -86,6 +86,7 @@ def run(ctx):
     import impl
     pc, CI = impl.pc, impl.CI
     rng = ctx.rng
+    _args_of_take(ctx, impl)
     R.warm_up()
 
     def make(kind, n):
@@ -313,3 +314,34 @@ def run(ctx):
                     a.flat[0] = a.flat[0] + 1
             if [value(a) for a in args] != va:
                 ctx.fail(type(recv).__name__ + '.' + name, 'receiver aliases an argument after the in-place operation', dict(method=name))
+
+
+def _args_of_take(ctx, impl):
+    """in-place operations on a circuit never change the gate they are given: gates labelled from the end (negative qubits, which
+    numpy indexing resolves against the register of the object the gate is applied to) keep their labels, printing and action"""
+    rng = ctx.rng
+    CI = impl.CI
+    import gen as G_
+    import hutil as H_
+    for _ in range(ctx.budget(40, 400)):
+        n1, n2 = rng.choice([2, 3]), rng.choice([4, 5])
+        name = rng.choice(['S', 'H', 'X'])
+        q = rng.choice([-1, -2])
+        gate = getattr(CI, name)(q)
+        before = (tuple(gate.qubits), repr(gate), impl.ops_of(gate.forward_map))
+        Ps = [G_.rand_op(rng, n2) for _k in range(3)]
+        want = impl.ops_of(getattr(CI, name)(n2 + q).forward(impl.plist(Ps)))
+        klass = rng.choice(['CliffordCircuit', 'Circuit'])
+        ctx.case(('take-negative-label', name, q, n1, n2, klass), True, sample=dict(op='take(gate with negative label)', gate=name, qubit=q))
+        try:
+            c1 = getattr(CI, klass)(n1)
+            c1.take(gate)
+            after = (tuple(gate.qubits), repr(gate), impl.ops_of(gate.forward_map))
+            got = impl.ops_of(gate.forward(impl.plist(Ps)))
+        except Exception as e:
+            ctx.fail(klass + '.take', 'implementation raised %r for a gate labelled from the end' % e, dict(gate=name, qubit=q, N=n1)); continue
+        if after != before:
+            ctx.fail(klass + '.take', 'take() changed the gate it was given: %s -> %s' % (before[:2], after[:2]), dict(gate=name, qubit=q, N=n1))
+        elif got != want:
+            ctx.fail(klass + '.take', 'after a %d-qubit circuit took the gate %s(%d), the same gate applied to a %d-qubit list no longer acts on qubit %d' % (n1, name, q, n2, n2 + q),
+                     dict(gate=name, qubit=q, N1=n1, N2=n2, Ps=Ps, got=got, want=want))
